@@ -2,6 +2,7 @@ import PelModel.Clean
 import PelModel.Main
 import PelProofs.Clean
 import PelProofs.Main
+import PelProofs.Top
 /-
   C12 — `--clean` never deletes a PEL whose decoded output was not completely written.
   Statements quantify over every number of writes `n`, every fault plan and every prefix of the trace
@@ -223,5 +224,61 @@ example : (dispatch { isDir := fun _ => false, isFile := fun _ => false } { file
 example : (dispatch { isDir := fun _ => false, isFile := fun _ => false } { file := some (s "/pels/a") }).1.afterPrint true = none := by decide
 example : printedOf .doc (fun k => k == 1) = false ∧ printedOf .filtered (fun _ => false) = false ∧
     printedOf .doc (fun k => k == 2) = true := by decide
+
+/-! ### the WHOLE command: `runMain` = `dispatch` followed by the mode it names, on a `World` (model: PelModel/Top.lean) -/
+
+/-- ★ `peltool -f F --clean …` as a whole, on a world in which `F` exists with content `data` (whatever else is on the command line: `-f` has
+    the highest priority):
+    (1) with no I/O fault, `F` is absent from the new world iff `data` decodes to a selected document;
+    (2) under ANY fault plan, `F` is absent iff the C12 event trace `cleanFileTrace` of that decode under that plan contains a successful
+        `removeIn` (so `file_remove_after_complete` / `file_input_kept` speak about the whole command);
+    (3) under ANY fault plan, `F` is still there unless the document existed and print, flush (and the removal itself) all succeeded;
+    (4) nothing else in the world changes -/
+theorem command_file_clean (env : Env) (a : Args) (w : World) (f : Text) (data : Bytes) (fault : Nat → Bool)
+    (hf : tv a.file = some f) (hc : a.clean = true) (hw : w.file = some data) :
+    let c := mkConfig severityGroupTable a
+    let env' := env.withCfg c
+    let d := decodeResultOf (fullOf env' c.sel { name := f, data := data })
+    ((runMain env a w).world.file = none ↔ ∃ eid j, parsePEL env' c.sel data = .doc eid j) ∧
+    ((runMainF fault env a w).world.file = none ↔ inputRemoved (cleanFileTrace d true fault) = true) ∧
+    ((runMainF fault env a w).world.file = none →
+      (∃ eid j, parsePEL env' c.sel data = .doc eid j) ∧ fault 0 = false ∧ fault 1 = false ∧ fault 2 = false) ∧
+    ((runMainF fault env a w).world = w ∨ (runMainF fault env a w).world = { w with file := none }) := by
+  intro c env' d
+  have hch : Chain (w.fsView a) a (.fileMode f a.clean) false := .file hf
+  have hrun : ∀ ft, runMainF ft env a w = fileBranch ft env' c (.fileMode f true) f w := by
+    intro ft
+    rw [runMainF_of_chain hch, hc]
+    rfl
+  have hdoc : d = .doc ↔ ∃ eid j, parsePEL env' c.sel data = .doc eid j :=
+    decodeResultOf_fullOf_doc_iff env' c.sel { name := f, data := data }
+  refine ⟨?_, ?_, ?_, ?_⟩
+  · show (runMainF noFault env a w).world.file = none ↔ _
+    rw [hrun, fileBranch_clean_file noFault env' c f w data hw]
+    simp [noFault]
+  · rw [hrun, fileBranch_clean_file fault env' c f w data hw, cleanFileTrace_removed_iff, hdoc]
+  · rw [hrun, fileBranch_clean_file fault env' c f w data hw]
+    exact id
+  · rw [hrun]
+    exact fileBranch_frame fault env' c _ f w
+
+/-! Non-vacuity: `-f /in/one.pel --clean` in `wDemo` (the file holds two bytes that are no PEL): the file stays, a diagnostic is written;
+    and the hypotheses of `command_file_clean` hold there. -/
+example : (runMain envDemo { file := some (s "/in/one.pel"), clean := true } wDemo).world = wDemo ∧
+    (runMain envDemo { file := some (s "/in/one.pel"), clean := true } wDemo).diagnostics = 1 ∧
+    tv ({ file := some (s "/in/one.pel"), clean := true } : Args).file = some (s "/in/one.pel") ∧ wDemo.file = some [88, 88] := by decide
+-- a file that does not exist: reported, status 0
+example : (runMain envDemo { file := some (s "/in/none"), clean := true, deleteAll := true } { wDemo with file := none }).exit = 0 := by decide
+
+-- with real PELs (`wPels.file` = a selected two-section PEL): printed, then removed; its hidden twin is filtered out and stays;
+-- with a fault at print / flush / remove the file stays
+example : (runMain envDemo { file := some (s "/in/one.pel"), clean := true } wPels).world = { wPels with file := none } ∧
+    (runMain envDemo { file := some (s "/in/one.pel"), clean := true } wPels).stdout ≠ [] ∧
+    (runMain envDemo { file := some (s "/in/one.pel") } wPels).world = wPels ∧
+    (runMain envDemo { file := some (s "/in/one.pel"), clean := true } { wPels with file := some pelHiddenDemo }).world.file = some pelHiddenDemo ∧
+    (runMain envDemo { file := some (s "/in/one.pel"), clean := true, hidden := true } { wPels with file := some pelHiddenDemo }).world.file = none ∧
+    (runMainF (fun k => k == 0) envDemo { file := some (s "/in/one.pel"), clean := true } wPels).world = wPels ∧
+    (runMainF (fun k => k == 1) envDemo { file := some (s "/in/one.pel"), clean := true } wPels).world = wPels ∧
+    (runMainF (fun k => k == 2) envDemo { file := some (s "/in/one.pel"), clean := true } wPels).world = wPels := by decide +kernel
 
 end Pel.C12
